@@ -214,6 +214,24 @@ Rollback(t) ==
   /\ db'  = WithoutAll(db, tx[t].created)
   /\ SetTx(t, [tx[t] EXCEPT !.st = "done", !.outcome = "rolledback"])
 
+\* The process running t died inside Commit.  After restart and recovery the outcome is all or nothing:
+\* either the commit point had been reached (everything installed) or nothing of t remains.
+Crash(t) ==
+  /\ Committing(t)
+  /\ \/ /\ db' = IF tx[t].lin THEN db ELSE Installed(t)
+        /\ cat' = [s \in DOMAIN cat |-> IF cat[s].by = t THEN [cat[s] EXCEPT !.by = ""] ELSE cat[s]]
+        /\ SetTx(t, [tx[t] EXCEPT !.st = "done", !.lin = TRUE, !.outcome = "committed"])
+     \/ /\ ~tx[t].lin
+        /\ cat' = WithoutAll(cat, tx[t].created)
+        /\ db'  = WithoutAll(db, tx[t].created)
+        /\ SetTx(t, [tx[t] EXCEPT !.st = "done", !.outcome = "failed"])
+
+\* number of transaction / priority log files left on disk: none once every transaction has ended and the
+\* documented ages have passed with later transactions running (C09)
+Logs(n) ==
+  /\ (\A t \in DOMAIN tx : ~Live(t)) => n = 0
+  /\ UNCHANGED vars
+
 \* infs.RemoveBtree: non transactional, complete
 RemoveStore(s) ==
   /\ s \in DOMAIN cat
